@@ -51,3 +51,7 @@ def build(pc, E, canary=None):
 
 def concretise(pc, it):
     return {'script': 'errors_case.py', 'case': {}}
+
+
+def fallback(pc):
+    return [{'script': 'errors_case.py', 'case': {}}]
